@@ -687,7 +687,8 @@ pub fn deep_eq(a: &Value, b: &Value) -> Option<bool> {
             };
             let d = num(x) == num(y);
             let exact = match (as_int(x), as_int(y)) {
-                (Some(i), Some(j)) => i == j,
+                // two integers: numerically equal iff the same integer, nothing unspecified about it
+                (Some(i), Some(j)) => return Some(i == j),
                 (Some(i), None) => float_eq_int(num(y), i),
                 (None, Some(j)) => float_eq_int(num(x), j),
                 (None, None) => d,
